@@ -513,10 +513,10 @@ Qed.
 
 Lemma check_in_nonref L m v2 i :
   is_ref i = false →
-  (check_in L m v2 i = true ↔ i_el i ∉ m_sp m ∧ avail L m v2 i = true).
+  (check_in L m v2 i = true ↔ i_el i ∉ m_sp m ∧ avail L m v2 i = true ∧ rev_ok L i = true).
 Proof.
   unfold check_in, is_ref. destruct (i_role i); try done; intros _;
-    rewrite andb_true_iff, negb_true_iff, bool_decide_eq_false; tauto.
+    rewrite !andb_true_iff, negb_true_iff, bool_decide_eq_false; tauto.
 Qed.
 
 Lemma check_in_ref L m m' v2 i : is_ref i = true → check_in L m v2 i = check_in L m' v2 i.
@@ -553,9 +553,10 @@ Proof.
   rewrite Forall_forall in Hf |- *. intros i Hi. specialize (Hf i Hi).
   destruct (is_ref i) eqn:Hr.
   - by rewrite <- (check_in_ref L m).
-  - apply check_in_nonref in Hf as [Hsp Hav]; [|done]. apply check_in_nonref; [done|]. split.
+  - apply check_in_nonref in Hf as (Hsp&Hav&Hrv); [|done]. apply check_in_nonref; [done|]. splits.
     + simpl. rewrite not_elem_of_union, elem_of_list_to_set. split; [done|]. by apply Hd.
     + eapply avail_mono; [|done]. simpl. set_solver.
+    + done.
 Qed.
 
 Lemma check_weaken L m1 m0 n :
@@ -567,7 +568,7 @@ Proof.
   rewrite Forall_forall in Hf |- *. intros i Hi. specialize (Hf i Hi).
   destruct (is_ref i) eqn:Hr.
   - by rewrite <- (check_in_ref L m1).
-  - apply check_in_nonref in Hf as [Hsp _]; [|done]. apply check_in_nonref; [done|]. split; [set_solver|auto].
+  - apply check_in_nonref in Hf as (Hsp&_&Hrv); [|done]. apply check_in_nonref; [done|]. splits; [set_solver|auto|done].
 Qed.
 
 Lemma vseq_sp_cr L : ∀ ts m m', vseq L m ts = Some m' →
@@ -591,7 +592,7 @@ Proof.
   apply check_iff in Hn as [Hsn Hfn]. apply check_iff in Hu as [Hsu Hfu].
   rewrite Forall_forall in Hfn. specialize (Hfn j Hj).
   assert (Hrj : is_ref j = false) by (unfold is_spend, is_ref in *; destruct (i_role j); done).
-  apply check_in_nonref in Hfn as [Hnsp _]; [|done].
+  apply check_in_nonref in Hfn as (Hnsp&_&_); [|done].
   pose proof (static_wf _ _ _ Hsn Hj) as Hwj. pose proof (static_wf _ _ _ Hsu Hi) as Hwi.
   rewrite Hvn in Hwj. rewrite Hvu in Hwi. unfold wf_in in *.
   unfold is_spend, is_ref in *. destruct (i_role j) eqn:Rj; try done.
@@ -691,7 +692,7 @@ Proof.
       assert (Hins : vseq L ma (t :: v2s) = Some (apply_tx m t)).
       { apply vseq_insert; auto. intros i Hi Hr.
         apply check_iff in Hct as [_ Hf]. rewrite Forall_forall in Hf. specialize (Hf i Hi).
-        rewrite Hvt in Hf. apply check_in_nonref in Hf as [_ Hav]; [|done].
+        rewrite Hvt in Hf. apply check_in_nonref in Hf as (_&Hav&_); [|done].
         eapply avail_mono; eauto. }
       simpl in Hins. destruct (check L ma t) eqn:Hmat; [|done].
       eapply (IH (l ++ [t]) (apply_tx ma t) (apply_tx m t) _ _ (apply_tx cm t)); eauto.
@@ -968,7 +969,7 @@ Proof.
   induction ts as [|t r IH]; intros m m' H; simpl in *; [done|].
   destruct (check L m t) eqn:Hc; [|done]. split.
   - intros i Hi Hr. apply check_iff in Hc as [_ Hf]. rewrite Forall_forall in Hf.
-    specialize (Hf i Hi). by apply check_in_nonref in Hf as [? _].
+    specialize (Hf i Hi). by apply check_in_nonref in Hf as (?&_&_).
   - by apply IH in H.
 Qed.
 
@@ -1059,8 +1060,8 @@ Proof.
       { apply check_iff in Hg as [Hs Hf]. apply check_iff. split; [done|].
         rewrite Forall_forall in Hf |- *. intros i Hi. specialize (Hf i Hi).
         destruct (is_ref i) eqn:Hr; [by rewrite <- (check_in_ref L (MS ∅ G))|].
-        apply check_in_nonref in Hf as [_ Hav]; [|done]. apply check_in_nonref; [done|].
-        split; [by apply Hc1|]. eapply avail_mono; [|exact Hav]. done. }
+        apply check_in_nonref in Hf as (_&Hav&Hrv); [|done]. apply check_in_nonref; [done|].
+        splits; [by apply Hc1| |done]. eapply avail_mono; [|exact Hav]. done. }
       rewrite Hck in H.
       destruct (refill L (a_v2 t) (ts ++ extra) (S n) (apply_tx m t) (<[a_id t:=n]> idx) (w + a_weight t))
         as [[[r0 m0] idx0] w0] eqn:Hr.
@@ -1178,7 +1179,8 @@ Theorem retention mw U L0 ops steps lr L' :
   let q := revalidate s.1 mw s.2 in
   let p1 := chain_step steps lr q in
   weight q < mw * 10 →
-  (∀ x u i, x ∈ last_rev p1 → u ∈ v2txns q → i ∈ a_ins u → is_ref i = false → i_el i ∉ spends x) →
+  (∀ x u i, x ∈ last_rev p1 → x ∈ pool_transactions L' mw p1 →
+            u ∈ v2txns q → i ∈ a_ins u → is_ref i = false → i_el i ∉ spends x) →
   ∀ t, t ∈ goods L' steps (txns q ++ v2txns q) → t ∈ reported mw (L', p1).
 Proof.
   intros Hinj Ho Hop s q p1 Hw Hlr t Ht.
@@ -1239,18 +1241,108 @@ Proof.
       rewrite (K1 u Huin), (Hk2 a Ha) in Hvu. done.
   - (* nothing spent by the kept v1 transactions is touched by a pooled v2 transaction *)
     rewrite (vseq_sp_exact _ _ _ _ V1). simpl.
-    eapply (clean_anti (list_to_set (flat_map spends (txns q)) ∪ list_to_set (flat_map spends (last_rev p1)))).
-    { intros el. rewrite elem_of_union, !elem_of_list_to_set, !elem_of_list_In, !in_flat_map.
-      intros [?|(u&Hu&Hel)]; [set_solver|].
-      apply elem_of_list_In in Hu. pose proof (sublist_elem_of _ _ _ S1 Hu) as [Hu1|Hu1]%elem_of_app;
-        [left|right]; exists u; split; auto; by apply elem_of_list_In. }
+    set (lrk := List.filter (λ x, bool_decide (x ∈ r1)) (last_rev p1)).
+    eapply (clean_anti (list_to_set (flat_map spends (txns q)) ∪ list_to_set (flat_map spends lrk))).
+    { intros el Hel. apply elem_of_union in Hel as [Hel|Hel]; [set_solver|].
+      apply elem_of_list_to_set, elem_of_list_In, in_flat_map in Hel as (u&Hu&Hel).
+      apply elem_of_list_In in Hu. apply elem_of_union.
+      pose proof (sublist_elem_of _ _ _ S1 Hu) as [Hu1|Hu1]%elem_of_app; [left|right];
+        apply elem_of_list_to_set, elem_of_list_In, in_flat_map; exists u; (split; [|done]).
+      - by apply elem_of_list_In.
+      - apply filter_In. split; [by apply elem_of_list_In|by apply bool_decide_eq_true]. }
     apply clean_union.
     + apply clean_omap; [done|]. eapply clean_anti; [|exact Hcl2]. set_solver.
-    + intros a' i Ha' Hi Hr. destruct (HinR2 a' Ha') as (a&Ha&Hc).
-      rewrite elem_of_list_to_set, elem_of_list_In, in_flat_map. intros (x&Hx&Hel).
+    + intros a' i Ha' Hia Hr. destruct (HinR2 a' Ha') as (a&Ha&Hc).
+      intros Hin. apply elem_of_list_to_set, elem_of_list_In, in_flat_map in Hin as (x&Hx&Hel).
+      apply filter_In in Hx as [Hx Hxr]. apply bool_decide_eq_true in Hxr.
       apply elem_of_list_In in Hx, Hel.
       destruct (core_touch _ _ Hc) as (_&_&_&_&Hto).
       assert (Hall : ∀ i, i ∈ a_ins a → is_ref i = false → i_el i ∉ (list_to_set (spends x) : gset N)).
-      { intros i0 Hi0 Hr0. rewrite elem_of_list_to_set. eapply Hlr; eauto. }
-      apply Hto in Hall. apply (Hall i Hi Hr). by apply elem_of_list_to_set.
+      { intros i0 Hi0 Hr0. rewrite elem_of_list_to_set. eapply Hlr; eauto.
+        unfold pool_transactions. by rewrite Hrv. }
+      apply (proj2 (Hto (list_to_set (spends x))) Hall i Hia Hr). by apply elem_of_list_to_set.
 Qed.
+
+(** ** Witnesses and non-vacuity *)
+Definition exL : ledger := LG (list_to_map [(0, 0); (4, 1); (8, 2)]) 3 5 ∅.
+Definition tA := ATx 1 false [AIn 0 RSpend 0 true 0] [100] 1 10 0 100 false.
+Definition tB := ATx 2 true [AIn 4 RSpend 1 true 0] [104] 1 10 0 100 false.
+Definition tC := ATx 3 true [AIn 104 RSpend unassigned true 0] [108] 1 10 0 100 false.
+Definition tD := ATx 4 false [AIn 8 RSpend 0 true 0] [112] 1 10 0 100 false.
+Definition tE := ATx 5 false [AIn 0 RSpend 0 true 0] [116] 1 10 0 100 false.
+Definition exU := [tA; tB; tC; tD; tE].
+Definition exMW : N := 2000000.
+
+Example ex_ids_inj : ids_inj exU.
+Proof.
+  intros t1 t2 H1 H2. unfold exU in *. set_unfold.
+  destruct H1 as [->|[->|[->|[->|[->|[]]]]]], H2 as [->|[->|[->|[->|[->|[]]]]]]; vm_compute; intros; try done.
+Qed.
+
+(** a pool holding a v1 transaction, a v2 parent and its ephemeral child *)
+Definition ex_ops : list op := [OAdd1 [tA]; OAdd2 (Some [tB; tC])].
+Example ex_ops_in : Forall (op_in exU) ex_ops.
+Proof.
+  assert (∀ t, t ∈ exU → in_U exU t) by (intros t Ht; exists t; auto).
+  repeat constructor; simpl; apply H; unfold exU; set_solver.
+Qed.
+Example ex_reported : map a_id (reported exMW (nrun exMW exL ex_ops)) = [1; 2; 3].
+Proof. vm_compute. reflexivity. Qed.
+
+(** F1: before the repair, a v2 id given to the v1 lookup panics or yields another transaction *)
+Theorem lookup_prefix_refuted :
+  (let s := nrun exMW exL ex_ops in lookup_v1_prefix s.1 exMW s.2 3 = LPanic) ∧
+  (let s := nrun exMW exL ex_ops in ∃ t, lookup_v1_prefix s.1 exMW s.2 2 = LFound t ∧ a_id t ≠ 2) ∧
+  (let s := nrun exMW exL ex_ops in ∃ t, lookup_v2_prefix s.1 exMW s.2 1 = LFound t ∧ a_id t ≠ 1).
+Proof.
+  splits.
+  - vm_compute. reflexivity.
+  - exists tA. split; [vm_compute; reflexivity|done].
+  - exists tB. split; [vm_compute; reflexivity|done].
+Qed.
+Example ex_lookup_repaired :
+  let s := nrun exMW exL ex_ops in
+  lookup_v1 s.1 exMW s.2 3 = LAbsent ∧ lookup_v1 s.1 exMW s.2 1 = LFound tA ∧ lookup_v2 s.1 exMW s.2 3 = LFound tC.
+Proof. vm_compute. done. Qed.
+
+(** F2: before the repair, a set whose second member conflicts with the pool leaves its first
+    member behind although the call fails *)
+Theorem add_prefix_refuted :
+  let s := nrun exMW exL ex_ops in
+  let q := revalidate s.1 exMW s.2 in
+  (add_v1_prefix s.1 exMW s.2 [tD; tE]).2 = VErr ∧
+  txns (add_v1_prefix s.1 exMW s.2 [tD; tE]).1 = txns q ++ [tD] ∧
+  (add_v1 s.1 exMW s.2 [tD; tE]).2 = VErr ∧ txns (add_v1 s.1 exMW s.2 [tD; tE]).1 = txns q.
+Proof. vm_compute. done. Qed.
+Example ex_add_all : let s := nrun exMW exL ex_ops in
+  (add_v1 s.1 exMW s.2 [tA; tD]).2 = VAdded ∧ map a_id (txns (add_v1 s.1 exMW s.2 [tA; tD]).1) = [1; 4] ∧
+  (add_v1 s.1 exMW s.2 [tA]).2 = VKnown ∧ (add_v1 s.1 exMW s.2 []).2 = VKnown.
+Proof. vm_compute. done. Qed.
+
+(** F9: one unrelated applied block (two new leaves) — before the repair the ephemeral child
+    is dropped, after it both stay *)
+Definition ex_step : list bstep := [BS false [] 5].
+Definition exL' : ledger := LG (list_to_map [(0, 0); (4, 1); (8, 2)]) 5 6 ∅.
+Theorem retention_prefix_refuted :
+  let s := nrun exMW exL ex_ops in
+  let q := revalidate s.1 exMW s.2 in
+  tC ∈ goods exL' ex_step (txns q ++ v2txns q) ∧
+  tC ∈ reported exMW (exL', chain_step ex_step None q) ∧
+  tC ∉ reported exMW (exL', chain_step_prefix ex_step None q).
+Proof.
+  assert (H : let s := nrun exMW exL ex_ops in let q := revalidate s.1 exMW s.2 in
+    goods exL' ex_step (txns q ++ v2txns q) = [tA; tB; tC] ∧
+    reported exMW (exL', chain_step ex_step None q) = [tA; tB; tC] ∧
+    reported exMW (exL', chain_step_prefix ex_step None q) = [tA; tB]).
+  { vm_compute. done. }
+  simpl in *. destruct H as (-> & -> & ->). set_solver.
+Qed.
+
+(** MineBlock before the repair: a pool that fills the block to within the weight of the
+    miner's own transaction yields an overweight block *)
+Definition tBig := ATx 9 true [] [] 0 95 0 100 true.
+Definition tArb := ATx 10 true [] [] 0 12 0 100 true.
+Theorem mined_block_prefix_refuted :
+  total_weight (mine_block_prefix 100 true tArb [] [tBig]) = 107 ∧
+  total_weight (mine_block 100 true tArb [] [tBig]) = 12.
+Proof. vm_compute. done. Qed.
